@@ -9,7 +9,7 @@ import (
 // checkFrame generates, for a verified function with a frame clause, one obligation per heap the
 // function may have changed and that the frame does not list: at every reference that existed at
 // entry the heap is unchanged (fresh allocations are always allowed).
-func (u *Unit) checkFrame(ct *Contract, r retInfo, alloc0 Term) {
+func (u *Unit) checkFrame(ct *Contract, r retInfo, alloc0 Term, penv *Env) {
 	if !ct.HasFrame {
 		return
 	}
@@ -18,7 +18,39 @@ func (u *Unit) checkFrame(ct *Contract, r retInfo, alloc0 Term) {
 		return
 	}
 	allowed := map[string]bool{}
+	except := map[string][]Term{} // heap -> references at which it may change (map:K|V@expr)
+	var excl map[string]bool // "~T.f" items: everything may change except these
 	for _, f := range ct.Frame {
+		if strings.HasPrefix(f, "~") {
+			if excl == nil {
+				excl = map[string]bool{}
+			}
+			for _, h := range u.resolveFrameItem(ct, strings.TrimSpace(f[1:])) {
+				excl[h] = true
+				if _, ok := r.st.heaps[h]; !ok {
+					if _, pend := r.st.pending[h]; pend || r.st.epoch != "" {
+						u.ensureHeapByName(r.st, h)
+					}
+				}
+			}
+			continue
+		}
+		if strings.HasPrefix(f, "map:") && strings.Contains(f, "@") {
+			at := strings.Index(f, "@")
+			ex, err := parseSpec(f[at+1:])
+			if err != nil {
+				u.specFail("frame item %s: %v", f, err)
+				return
+			}
+			oenv := *penv
+			oenv.st = penv.old
+			oenv.inOld = true
+			v := u.eval(ex, &oenv)
+			for _, h := range u.resolveFrameItem(ct, f) {
+				except[h] = append(except[h], v.T)
+			}
+			continue
+		}
 		for _, h := range u.resolveFrameItem(ct, f) {
 			allowed[h] = true
 		}
@@ -30,9 +62,22 @@ func (u *Unit) checkFrame(ct *Contract, r retInfo, alloc0 Term) {
 	for n := range u.heapSort {
 		names = append(names, n)
 	}
+	// heaps a callee's frame names and nothing here has looked at
+	for n := range r.st.pending {
+		if _, known := u.heapSort[n]; known {
+			if _, ok := r.st.heaps[n]; !ok {
+				u.heapNow(r.st, n)
+			}
+		} else if !allowed[n] && len(except[n]) == 0 && (excl == nil || excl[n]) {
+			u.oblige("frame", r.reach, tFalse, "frame", shortHeap(n), "heap "+n+" may be changed by a callee and is not in the frame")
+		}
+	}
 	sort.Strings(names)
 	for _, n := range names {
-		if allowed[n] {
+		if allowed[n] || strings.HasPrefix(n, "RV:") {
+			continue // RV: ghost state of a range loop
+		}
+		if excl != nil && !excl[n] {
 			continue
 		}
 		init := u.heapInit[n]
@@ -46,7 +91,12 @@ func (u *Unit) checkFrame(ct *Contract, r retInfo, alloc0 Term) {
 		case strings.HasPrefix(n, "G:") || !strings.HasPrefix(s, "(Array Int "):
 			f = eq2(cur, init)
 		default:
-			f = Term{fmt.Sprintf("(forall ((r Int)) (=> (and (<= 0 r) (< r %s)) (= %s %s)))", alloc0.S, sel(cur, Term{"r", "Int"}).S, sel(init, Term{"r", "Int"}).S), "Bool"}
+			cond := fmt.Sprintf("(and (<= 0 r) (< r %s)", alloc0.S)
+			for _, e := range except[n] {
+				cond += fmt.Sprintf(" (not (= r %s))", e.S)
+			}
+			cond += ")"
+			f = Term{fmt.Sprintf("(forall ((r Int)) (=> %s (= %s %s)))", cond, sel(cur, Term{"r", "Int"}).S, sel(init, Term{"r", "Int"}).S), "Bool"}
 		}
 		u.oblige("frame", r.reach, f, "frame", shortHeap(n), "heap "+n+" is not in the frame: unchanged at every pre-existing reference")
 	}
